@@ -17,6 +17,15 @@ PLAN = {
     "verus": [
         {"template": "allowlist.verus.rs", "tier": "quick", "rlimit": 30, "min_functions": 1},
     ],
+    "kani": [{
+        "crate": "metrics-exporter-prometheus", "cargo_args": ["--no-default-features", "--features", "http-listener"], "parallel": 2, "build_timeout": 3600,
+        "modules": [{"file": "metrics-exporter-prometheus/src/exporter/builder.rs", "mod": "__verif_c18", "src": "ipnet.kani.rs"}],
+        "functions": [{"item": "ipnet::IpNet::from_str / IpNet::from(IpAddr) / IpNet::contains, std IpAddr::from_str (dependency contracts assumed by the Verus template)", "file": "metrics-exporter-prometheus/src/exporter/builder.rs"}],
+        "harnesses": [
+            {"name": "c18_host_net_contains", "obligation": "C18/kani/c18_host_net_contains", "clause": "IpNet::from(ip).contains(q) <=> q == ip, all 2^64 IPv4 pairs", "kind": "complete", "tier": "thorough", "timeout": 1800, "replay": True},
+            {"name": "c18_plain_ip_parsers", "obligation": "C18/kani/c18_plain_ip_parsers", "clause": "d.d.d.d: IpNet::from_str is Err, IpAddr::from_str is Ok(that address)", "kind": "bounded", "bound": "dotted quad with single-digit octets", "tier": "thorough", "timeout": 3000, "replay": True},
+        ],
+    }],
     "witnesses": [
         {"match": r"add_allowed_address", "src": "witness_plain_ip.rs", "crate": "metrics-exporter-prometheus",
          "file": "metrics-exporter-prometheus/src/exporter/builder.rs"},
